@@ -47,6 +47,15 @@ def run(tier, rep, replay=None):
     lp = os.path.join(w, "large.ndjson")
     C.run([drv0, "-large", lp, "-seed", str(C.SEED)], timeout=1500, what="c20 driver (large policies)")
     llines = C.read_ndjson(lp)
+    # policies whose gates are stored in an arbitrary order (in-package recorder): printed, parsed again, compared with a reference evaluation
+    tb2 = C.go_build_intree(w, "abe/cpabe/tkn20")
+    pp = os.path.join(w, "permuted.ndjson")
+    C.run([tb2, "-test.run", "TestVerifPermuted", "-test.count=1"], env=dict(os.environ, VERIF_OUT=pp, VERIF_SEED=str(C.SEED), VERIF_N="400" if thorough else "80"),
+          timeout=1500, what="in-tree permuted-gates recorder")
+    plines = C.read_ndjson(pp)
+    if len(plines) < 50:
+        raise C.Infra("permuted-gates recorder produced %d lines" % len(plines))
+    llines += plines
     lbad, _ = C.validate_lines(d, "Trace_Large", "Lines.cfg", llines)
     for i in lbad:
         ln = llines[i]
